@@ -2,7 +2,7 @@
 # tools/seed_eval.sh <seed-dir-under-/tmp> <name> <property> <demo-package-dir> [more properties...]
 # 1. copies the sub-agent's deliverables to /verif/seeded/<name>
 # 2. confirms them in a scratch worktree of /repo (demo passes without the patch, fails with it; suite still green)
-# 3. applies the patch to /repo, runs the registered quick checks, undoes it
+# 3. runs the registered quick checks against that patched worktree (VERIF_REPO), removes it
 set -u
 export GOFLAGS=-mod=mod GOPROXY=off GOSUMDB=off GOTOOLCHAIN=local
 SRC=$1; NAME=$2; PROP=$3; PKG=$4; shift 4; EXTRA="$@"
@@ -20,13 +20,11 @@ cp $OUT/demo_test.go $W/$PKG/zz_seed_demo_test.go
 ( cd $W && go test -vet=off -count=1 -run 'Seed' ./$PKG/ >$OUT/demo_with.log 2>&1 ) && res "demo WITH patch: pass (unexpected)" || res "demo WITH patch: fails (as intended)"
 rm -f $W/$PKG/zz_seed_demo_test.go
 ( cd $W && go test -vet=off -count=1 ./... 2>&1 | grep -v "^ok\|no test files\|sgip12\|mockey\|^FAIL$" | head -5 >$OUT/suite_with.log ); [ -s $OUT/suite_with.log ] && res "SUITE NOT GREEN with patch: $(head -2 $OUT/suite_with.log)" || res "existing suite green with patch (sgip12 link failure pre-existing)"
-git -C /repo worktree remove --force $W
-# run my checks against the patched /repo
-git -C /repo apply $OUT/patch.diff || { res "cannot apply to /repo"; exit 2; }
+# run my checks against the patched scratch worktree (VERIF_REPO): /repo itself is never touched
 for P in $PROP $EXTRA; do
   # evidence of a run on a patched tree must never land in /verif/evidence (it is committed): redirect it
-  ( cd /verif && VERIF_EVIDENCE_DIR=/var/tmp/ev_seed_$NAME ./check $P quick > $OUT/check_$P.log 2>&1 ); RC=$?
+  ( cd /verif && VERIF_REPO=$W VERIF_EVIDENCE_DIR=/var/tmp/ev_seed_$NAME ./check $P quick > $OUT/check_$P.log 2>&1 ); RC=$?
   rm -rf /var/tmp/ev_seed_$NAME
   res "check $P: exit $RC, $(grep -c '^VIOLATION' $OUT/check_$P.log) VIOLATION line(s): $(grep '^VIOLATION' $OUT/check_$P.log | head -2 | cut -c1-220)"
 done
-git -C /repo checkout -- . ; git -C /repo status --short | grep -v '^??' | head -3
+git -C /repo worktree remove --force $W
